@@ -127,6 +127,7 @@ def explore(ctx):
         if meta:
             ctx.sample({"skip": meta[0]["skipExportGlyphs"], "level": meta[0]["level"], "glyphs": meta[0]["font"]["glyphs"][:2]})
     interpolatable_section(ctx)
+    features_section(ctx)
 
 
 def flat_contours(tt, name):
@@ -316,6 +317,91 @@ def interpolatable_section(ctx):
                 ctx.spec_failure(dict(case, location=v, glyph=bad[0]),
                                  "at %s=%s remaining glyph %r differs from the build with nothing skipped: %s" % (tag, v, bad[0], bad[1]))
                 break
+
+
+def features_section(ctx):
+    """generated kerning, mark positioning and GDEF classes: skipped glyphs that are kerning keys, kerning-group members,
+    anchored glyphs and listed in public.openTypeCategories (zero-width AND spacing marks, bases) -- the font with skipping
+    must compile, and for every remaining pair of glyphs the kerning value, the mark attachment and the GDEF class are what
+    they are in the build with nothing skipped (judged on the compiled GPOS/GDEF through harness/otl.Layout)"""
+    import ufo2ft
+    from fontTools.ttLib import TTFont
+    from harness.otl import Layout
+    from harness import dsgen
+    rng = ctx.subrng("skip-features")
+    SQ = [[(Fr(50), Fr(0), "line"), (Fr(250), Fr(0), "line"), (Fr(250), Fr(300), "line"), (Fr(50), Fr(300), "line")]]
+    base = [("A", 0x41, 600, [("top", 300, 700), ("bottom", 300, 0)], "base"), ("V", 0x56, 580, [("top", 290, 700)], "base"),
+            ("V.alt", None, 590, [("top", 295, 700)], "base"), ("a", 0x61, 500, [("top", 250, 500)], "base"),
+            ("o", 0x6F, 520, [("top", 260, 500), ("bottom", 260, -10)], "base"),
+            ("acutecomb", 0x301, 0, [("_top", 0, 480), ("top", 0, 640)], "mark"),
+            ("acutecomb.alt", None, 0, [("_top", 0, 470)], "mark"),
+            ("dotbelowcomb", 0x323, 0, [("_bottom", 0, -20)], "mark"),
+            ("tildemod", 0x2DC, 300, [("_top", 150, 480)], "mark"),        # spacing marks: category mark, advance > 0
+            ("ring.old", None, 250, [("_top", 125, 480)], "mark"),
+            ("f_i", None, 700, [("top_1", 150, 700), ("top_2", 500, 700)], "ligature")]
+    candidates = ["ring.old", "acutecomb.alt", "V.alt", "o", "tildemod", "f_i", "dotbelowcomb"]
+    for i in range(ctx.budget(14, 70)):
+        skip = [c for k, c in enumerate(candidates) if ((i * 37 + 5) >> k) & 1] or [candidates[i % len(candidates)]]
+        if i % 7 == 6:
+            skip = [candidates[(i // 7) % len(candidates)]]          # singletons
+        glyphs = [{"name": n, "unicodes": [u] if u else [], "width": w + rng.choice([0, 0, 10]), "contours": list(SQ), "components": [],
+                   "anchors": [(an, Fr(x), Fr(y)) for an, x, y in anchors]} for n, u, w, anchors, _ in base]
+        names = [g["name"] for g in glyphs]
+        desc = {"glyphs": glyphs,
+                "groups": {"public.kern1.A": ["A"], "public.kern1.V": ["V", "V.alt"], "public.kern2.V": ["V", "V.alt"],
+                           "public.kern2.round": ["o", "a"], "public.kern1.marks": ["tildemod", "ring.old"]},
+                "kerning": {("public.kern1.A", "public.kern2.V"): Fr(-60), ("public.kern1.V", "public.kern2.round"): Fr(-35),
+                            ("V.alt", "o"): Fr(-20), ("A", "tildemod"): Fr(-15), ("public.kern1.marks", "A"): Fr(12),
+                            ("a", "ring.old"): Fr(-8), ("f_i", "public.kern2.V"): Fr(-25), ("o", "A"): Fr(rng.choice([-10, 15]))},
+                "lib": {"public.openTypeCategories": {n: c for n, _, _, _, c in base}},
+                "features": "languagesystem DFLT dflt;\nlanguagesystem latn dflt;\n", "glyphOrder": list(names)}
+        lib = ["ufoLib2", "defcon"][i % 2]
+        mode = ["ttf-argument", "otf-libkey", "ttf-libkey", "variable-designspace-lib", "otf-argument"][i % 5]
+        case = {"font": jsonable(desc), "skipExportGlyphs": skip, "lib": lib, "mode": mode, "level": "generated features"}
+        ctx.count(); ctx.klass("features:" + mode); ctx.nontriv(("skf", i, ctx.scale))
+        fonts = []
+        try:
+            for with_skip in (False, True):
+                if mode.startswith("variable"):
+                    r2 = __import__("random").Random(i)
+                    ds, ufos = dsgen.make_designspace(r2, [desc, dsgen.perturb(r2, desc, 1)], lib, instances=False)
+                    if with_skip:
+                        ds.lib["public.skipExportGlyphs"] = list(skip)
+                    tt = ufo2ft.compileVariableTTF(ds, useProductionNames=False)
+                else:
+                    f = build_font(desc, lib)
+                    kw = {"useProductionNames": False}
+                    if with_skip and mode.endswith("libkey"):
+                        f.lib["public.skipExportGlyphs"] = list(skip)
+                    elif with_skip:
+                        kw["skipExportGlyphs"] = list(skip)
+                    tt = (ufo2ft.compileTTF if mode.startswith("ttf") else ufo2ft.compileOTF)(f, **kw)
+                buf = io.BytesIO(); tt.save(buf); buf.seek(0); fonts.append(TTFont(buf))
+        except Exception as e:
+            ctx.spec_failure(case, "compile (%s skipping) raised %s: %s\n%s" % ("with" if fonts else "without", type(e).__name__, e,
+                                                                              traceback.format_exc()[-1200:]))
+            continue
+        a, b = fonts
+        la, lb = Layout(a), Layout(b)
+        remaining = [n for n in names if n not in skip]
+        if [n for n in b.getGlyphOrder() if n != ".notdef"] != remaining:
+            ctx.spec_failure(case, "glyph order with skipping: %r" % b.getGlyphOrder())
+            continue
+        ca, cb = la.glyph_classes(), lb.glyph_classes()
+        if {k: v for k, v in ca.items() if k not in skip} != cb:
+            ctx.spec_failure(case, "GDEF classes of the remaining glyphs changed or a skipped glyph is still classified: %r -> %r" % (ca, cb))
+        bad = None
+        for tag in la.scripts():
+            ka, kb = la.lookups_for(tag, {"kern", "dist"}), lb.lookups_for(tag, {"kern", "dist"})
+            ma, mb = la.lookups_for(tag, {"mark", "mkmk"}), lb.lookups_for(tag, {"mark", "mkmk"})
+            for x in remaining:
+                for y in remaining:
+                    if la.pair_adjust(ka, x, y)[:3] != lb.pair_adjust(kb, x, y)[:3]:
+                        bad = bad or "kerning of the remaining pair (%s, %s) under %s: %r -> %r" % (x, y, tag, la.pair_adjust(ka, x, y)[:3], lb.pair_adjust(kb, x, y)[:3])
+                    if la.mark_attach(ma, x, y) != lb.mark_attach(mb, x, y):
+                        bad = bad or "attachment of %s to %s under %s: %r -> %r" % (y, x, tag, la.mark_attach(ma, x, y), lb.mark_attach(mb, x, y))
+        if bad:
+            ctx.spec_failure(case, "generated positioning between remaining glyphs is affected by skipping %r: %s" % (skip, bad))
 
 
 def compare_binaries(ctx, case, desc, skip, lib, i):
